@@ -1,9 +1,14 @@
-//! C16 — `Dht::get_mutable_most_recent` (sync): the fold between a channel send and a channel
-//! iterator.  The harness plays the actor: it takes the `Sender<MutableItem>` out of the
-//! `ActorMessage::Get`, pushes n items and drops it; the real get_mutable, iterator and fold run.
-//! Stand-ins: `flume` (single-threaded FIFO).  In native replay a real thread plays the actor
-//! over the real `flume`.
+//! C16 — `AsyncDht::get_mutable_most_recent`: the async twin of the fold in `dht.rs`.  The
+//! harness plays the actor (as in harness/dht.rs) and polls the future with a no-op waker: every
+//! poll is Ready because the items are queued and the sender is gone before the first poll.
+//! Private names used: `AsyncDht(Dht)`, `Dht(Sender<ActorMessage>)`.
+//! Stand-ins: `flume` (single-threaded FIFO with `into_stream`).  In native replay the same
+//! harness runs over the real `flume` (items are queued before the future is polled).
 use super::*;
+use crate::actor::{ActorMessage, ResponseSender};
+use std::future::Future;
+use std::pin::Pin;
+use std::task::{Context, Poll, Waker};
 
 static mut SEQS: [i64; 3] = [0; 3];
 static mut VALS: [u8; 3] = [0; 3];
@@ -40,24 +45,45 @@ fn scenario(n: usize) {
         VALS = vals;
     }
     let (tx, rx) = flume::unbounded::<ActorMessage>();
-    #[cfg(verif_replay)]
-    let actor = {
-        let rx = rx.clone();
-        std::thread::spawn(move || {
-            if let Ok(m) = rx.recv() {
+    let dht = AsyncDht(Dht(tx));
+    let r = {
+        let mut fut = Box::pin(dht.get_mutable_most_recent(&[0; 32], None));
+        #[cfg(verif_replay)]
+        {
+            // real flume: the actor double runs before the first poll (the message is queued)
+            if let Ok(m) = rx.try_recv() {
                 serve(m)
             }
-        })
+        }
+        let waker = Waker::noop();
+        let mut cx = Context::from_waker(&waker);
+        let mut out = None;
+        let mut polls = 0;
+        while polls < 2 {
+            if let Poll::Ready(v) = Pin::new(&mut fut).poll(&mut cx) {
+                out = Some(v);
+                break;
+            }
+            #[cfg(verif_replay)]
+            {
+                if let Ok(m) = rx.try_recv() {
+                    serve(m)
+                }
+            }
+            polls += 1;
+        }
+        match out {
+            Some(v) => v,
+            None => {
+                crate::verif_env::cut();
+                None
+            }
+        }
     };
-    let dht = Dht(tx);
-    let r = dht.get_mutable_most_recent(&[0; 32], None);
-    #[cfg(verif_replay)]
-    let _ = actor.join();
     if n == 0 {
         assert!(r.is_none(), "C16 None only if nothing was delivered");
         kani::cover!(true);
     } else {
-        // reference: maximum seq; among those the greatest value
         let mut best = 0usize;
         let mut i = 1;
         while i < 3 {
@@ -73,61 +99,64 @@ fn scenario(n: usize) {
             }
             None => assert!(false, "C16 an item was delivered so one is returned"),
         }
-        // (for n = 1 the order witnesses are inapplicable: trivially true there)
         kani::cover!(n < 2 || (best == n - 1 && seqs[n - 1] > seqs[0]));
         kani::cover!(n < 2 || (best == 0 && seqs[0] > seqs[n - 1]));
         kani::cover!(n < 2 || (seqs[0] == seqs[n - 1] && vals[0] != vals[n - 1]));
     }
+    assert!(!crate::verif_env::cut_reached(), "CUT the future was not ready although every item was queued");
     std::mem::forget(r);
     std::mem::forget(dht);
     std::mem::forget(rx);
 }
 
-//@ ob: C16.O1a
+//@ ob: C16.O2a
 //@ tier: quick
-//@ cap: 900
+//@ cap: 1500
+//@ mem: 28
 //@ standins: tracing lru vcoll flume
-//@ desc: get_mutable_most_recent returns None iff the lookup delivered nothing (n = 0) and the single item for n = 1
-//@ bounds: n in {0, 1} delivered items with symbolic (seq: full i64, 1-byte value); unwind 9
+//@ desc: async twin: AsyncDht::get_mutable_most_recent returns None iff nothing was delivered (n = 0) and the single item for n = 1
+//@ bounds: n in {0, 1} delivered items (seq full i64, 1-byte value); future polled with a no-op waker (Ready at the first poll: all items queued, sender dropped); unwind 9
 //@ stubs: Dht::send -> harness-side actor double delivering the items then dropping the sender; MutableItem::target_from_key -> fixed id (SHA-1 not the subject)
-//@ functions: Dht::get_mutable_most_recent, Dht::get_mutable, GetIterator::next, flume stand-in
+//@ functions: AsyncDht::get_mutable_most_recent, AsyncDht::get_mutable, GetStream::poll_next, flume stand-in RecvStream
 #[kani::proof]
 #[kani::stub(crate::dht::Dht::send, send_stub)]
 #[kani::stub(crate::common::mutable::MutableItem::target_from_key, tfk_stub)]
 #[kani::unwind(9)]
-fn c16_o1a_most_recent_n01() {
+fn c16_o2a_async_most_recent_n01() {
     let n: usize = if kani::any() { 0 } else { 1 };
     scenario(n);
 }
 
-//@ ob: C16.O1b
+//@ ob: C16.O2b
 //@ tier: quick
-//@ cap: 1800
+//@ cap: 2400
+//@ mem: 28
 //@ standins: tracing lru vcoll flume
-//@ desc: two delivered items in either order (symbolic seqs and values): the result has the maximum seq, ties broken by the greatest value
-//@ bounds: n = 2; seq full i64, values 1 byte; all orders are covered by the items being symbolic; unwind 9
-//@ stubs: as C16.O1a
-//@ functions: Dht::get_mutable_most_recent
+//@ desc: async twin, two delivered items in either order (symbolic seqs and values): the result has the maximum seq, ties broken by the greatest value
+//@ bounds: n = 2; seq full i64, values 1 byte; unwind 9
+//@ stubs: as C16.O2a
+//@ functions: AsyncDht::get_mutable_most_recent
 #[kani::proof]
 #[kani::stub(crate::dht::Dht::send, send_stub)]
 #[kani::stub(crate::common::mutable::MutableItem::target_from_key, tfk_stub)]
 #[kani::unwind(9)]
-fn c16_o1b_most_recent_n2() {
+fn c16_o2b_async_most_recent_n2() {
     scenario(2);
 }
 
-//@ ob: C16.O1c
+//@ ob: C16.O2c
 //@ tier: thorough
 //@ cap: 3000
+//@ mem: 40
 //@ standins: tracing lru vcoll flume
-//@ desc: three delivered items: maximum seq, ties by greatest value
+//@ desc: async twin, three delivered items: maximum seq, ties by greatest value
 //@ bounds: n = 3; unwind 9
-//@ stubs: as C16.O1a
-//@ functions: Dht::get_mutable_most_recent
+//@ stubs: as C16.O2a
+//@ functions: AsyncDht::get_mutable_most_recent
 #[kani::proof]
 #[kani::stub(crate::dht::Dht::send, send_stub)]
 #[kani::stub(crate::common::mutable::MutableItem::target_from_key, tfk_stub)]
 #[kani::unwind(9)]
-fn c16_o1c_most_recent_n3() {
+fn c16_o2c_async_most_recent_n3() {
     scenario(3);
 }
